@@ -31,6 +31,12 @@ def run(ctx):
     if r["violation"]:
         ctx.violation("bounded/m_names", {"inputs": r["inputs"], "observed": r["violation"]}, True)
     # file-level names (never counted as proved): no C wrapper defined twice, no Fortran entity declared twice
+    rc = ctx.monitor("m_corpus_rel", "psearch", 400, ctx.seed, 16, json.dumps({"rel": ["names"]}))
+    ctx.bounded.append({"monitor": "m_corpus_rel", "inputs_tried": rc["tried"], "violation": rc["violation"],
+                        "kind": "every upstream regression input: no C wrapper function defined twice in a file, no Fortran "
+                                "procedure declared twice in a module"})
+    if rc["violation"]:
+        ctx.violation("bounded/m_corpus_rel", {"inputs": rc["inputs"], "observed": rc["violation"]}, True)
     r2 = ctx.monitor("m_names_e2e", "search", 60, ctx.seed)
     ctx.bounded.append({"monitor": "m_names_e2e", "inputs_tried": r2["tried"], "violation": r2["violation"],
                         "kind": "bounded: generated files of 6 libraries x 2 prefixes (overloads with fortran_generic variants, "
